@@ -85,32 +85,37 @@ theorem err_through {code} : ∀ {F'} (_ : ForksOK code F') (F e R),
     refine .head (c' := .fail (fs ++ F) (some e) R) ?_ (err_through hfs F e R)
     rcases hf with ⟨t, ht⟩ | ht <;> simp [step, ht]
 
-/-- `O`: static registers (absolute addresses) of the segment in the current frame; `o`: `offset` at entry;
-    `fr`: frames at entry, restored at every exit. -/
-inductive Yields (code : Code) (O : Nat → Prop) (o : Nat) (fr : List Frame) (F : List Fork) (p' : Nat)
+/-- what the rest of the program must preserve between two outputs: the static registers `O`, the
+    read-only registers `P` (parameter slots of the live frames), the frames allocated so far -/
+def KeepP (O P : Nat → Prop) (o o1 : Nat) : Nat → Prop := Keep (fun a => O a ∨ P a) o o1
+
+/-- `O`: static registers (absolute addresses) of the segment in the current frame, which it may
+    write; `P`: registers it only reads (the closure slots of the live frames); `o`: `offset` at
+    entry; `fr`: frames at entry, restored at every exit. -/
+inductive Yields (code : Code) (O P : Nat → Prop) (o : Nat) (fr : List Frame) (F : List Fork) (p' : Nat)
     (S : List SV) : Cfg → List V → Option Err → Prop where
-  | done {c e R'} : Steps code c (.fail F e R') → EqOff (Wr O o) c.regs R' → Yields code O o fr F p' S c [] e
+  | done {c e R'} : Steps code c (.fail F e R') → EqOff (Wr O o) c.regs R' → Yields code O P o fr F p' S c [] e
   | out {c w ws e F' R1 o1 cp} :
       ForksOK code F' →
       Steps code c (.run p' (.v w :: S) (F' ++ F) false none R1 fr o1 cp) →
       o ≤ o1 →
       EqOff (Wr O o) c.regs R1 →
       (F' = [] → ws = [] ∧ e = none) →
-      (∀ R2, EqOn (Keep O o o1) R1 R2 → Yields code O o fr F p' S (.fail (F' ++ F) none R2) ws e) →
-      Yields code O o fr F p' S c (w :: ws) e
+      (∀ R2, EqOn (KeepP O P o o1) R1 R2 → Yields code O P o fr F p' S (.fail (F' ++ F) none R2) ws e) →
+      Yields code O P o fr F p' S c (w :: ws) e
 
-theorem Yields.steps_left {code O o fr F p' S c c' outs e} (h : Steps code c c')
+theorem Yields.steps_left {code O P o fr F p' S c c' outs e} (h : Steps code c c')
     (hr : EqOff (Wr O o) c.regs c'.regs)
-    (y : Yields code O o fr F p' S c' outs e) : Yields code O o fr F p' S c outs e := by
+    (y : Yields code O P o fr F p' S c' outs e) : Yields code O P o fr F p' S c outs e := by
   cases y with
   | done hs hf => exact .done (h.trans hs) (hr.trans hf)
   | out hF hs ho hf hn y' => exact .out hF (h.trans hs) ho (hr.trans hf) hn y'
 
 /-- weakening: a larger static set, an earlier entry offset; static registers dropped from `O` must lie
     between the new and the old entry offset -/
-theorem Yields.mono {code} {O O' : Nat → Prop} {o o' fr F p' S c outs e}
-    (hO : ∀ a, O a → O' a ∨ (o' ≤ a ∧ a < o)) (ho : o' ≤ o)
-    (y : Yields code O o fr F p' S c outs e) : Yields code O' o' fr F p' S c outs e := by
+theorem Yields.mono {code} {O O' P P' : Nat → Prop} {o o' fr F p' S c outs e}
+    (hO : ∀ a, O a → O' a ∨ (o' ≤ a ∧ a < o)) (hP : ∀ a, P a → O' a ∨ P' a ∨ (o' ≤ a ∧ a < o)) (ho : o' ≤ o)
+    (y : Yields code O P o fr F p' S c outs e) : Yields code O' P' o' fr F p' S c outs e := by
   have hW : ∀ a, Wr O o a → Wr O' o' a := by
     intro a h; rcases h with h | h
     · rcases hO a h with h | h
@@ -121,25 +126,29 @@ theorem Yields.mono {code} {O O' : Nat → Prop} {o o' fr F p' S c outs e}
   | done hs hf => exact .done hs (hf.mono hW)
   | @out c w ws e F' R1 o1 cp hF hs ho1 hf hn _ ih =>
     refine .out hF hs (Nat.le_trans ho ho1) (hf.mono hW) hn (fun R2 h2 => ih R2 (h2.mono ?_))
-    intro a h; rcases h with h | h
+    intro a h; rcases h with (h | h) | h
     · rcases hO a h with h | h
-      · exact Or.inl h
+      · exact Or.inl (Or.inl h)
+      · exact Or.inr ⟨h.1, Nat.lt_of_lt_of_le h.2 ho1⟩
+    · rcases hP a h with h | h | h
+      · exact Or.inl (Or.inl h)
+      · exact Or.inl (Or.inr h)
       · exact Or.inr ⟨h.1, Nat.lt_of_lt_of_le h.2 ho1⟩
     · exact Or.inr ⟨Nat.le_trans ho h.1, h.2⟩
 
 /-- Re-basing with frames. `K`: what the tail needs preserved. -/
-theorem Yields.rebase_aux {code O1 o1 fr G p' S c out1 e1}
-    (y1 : Yields code O1 o1 fr G p' S c out1 e1) :
-    ∀ {O K : Nat → Prop} {o : Nat} {F F' out2 e} {Rref : Regs}, G = F' ++ F → ForksOK code F' →
-    (∀ a, O1 a → O a ∨ (o ≤ a ∧ a < o1)) → o ≤ o1 →
-    (∀ a, K a → O a ∨ (o ≤ a ∧ a < o1)) → (∀ a, K a → ¬ Wr O1 o1 a) →
+theorem Yields.rebase_aux {code O1 P1 o1 fr G p' S c out1 e1}
+    (y1 : Yields code O1 P1 o1 fr G p' S c out1 e1) :
+    ∀ {O P K : Nat → Prop} {o : Nat} {F F' out2 e} {Rref : Regs}, G = F' ++ F → ForksOK code F' →
+    (∀ a, O1 a → O a ∨ (o ≤ a ∧ a < o1)) → (∀ a, P1 a → O a ∨ P a ∨ (o ≤ a ∧ a < o1)) → o ≤ o1 →
+    (∀ a, K a → O a ∨ P a ∨ (o ≤ a ∧ a < o1)) → (∀ a, K a → ¬ Wr O1 o1 a) →
     (F' = [] → e1 = none → out2 = [] ∧ e = none) →
     EqOn K Rref c.regs →
-    (∀ R', EqOn K Rref R' → Yields code O o fr F p' S (.fail (F' ++ F) e1 R') out2 e) →
-    Yields code O o fr F p' S c (out1 ++ out2) e := by
+    (∀ R', EqOn K Rref R' → Yields code O P o fr F p' S (.fail (F' ++ F) e1 R') out2 e) →
+    Yields code O P o fr F p' S c (out1 ++ out2) e := by
   induction y1 with
   | @done c e R' hs hf =>
-    intro O K o F F' out2 e Rref hG _ hO ho _ hd _ hK y2
+    intro O P K o F F' out2 e Rref hG _ hO _ ho _ hd _ hK y2
     subst hG
     have hW : ∀ a, Wr O1 o1 a → Wr O o a := by
       intro a h; rcases h with h | h
@@ -150,7 +159,7 @@ theorem Yields.rebase_aux {code O1 o1 fr G p' S c out1 e1}
     have : EqOn K Rref R' := hK.trans (hf.toOn hd)
     exact (y2 R' this).steps_left hs (hf.mono hW)
   | @out c w ws e' F'' R1 oo cp hF'' hs ho1 hf hn _ ih =>
-    intro O K o F F' out2 e Rref hG hF' hO ho hk hd hnil hK y2
+    intro O P K o F F' out2 e Rref hG hF' hO hP ho hk hd hnil hK y2
     subst hG
     have hW : ∀ a, Wr O1 o1 a → Wr O o a := by
       intro a h; rcases h with h | h
@@ -167,81 +176,85 @@ theorem Yields.rebase_aux {code O1 o1 fr G p' S c out1 e1}
       obtain ⟨rfl, rfl⟩ := hn h1
       simpa using hnil h2 rfl
     · intro R2 h2
-      have hKeep : ∀ a, Keep O1 o1 oo a → Keep O o oo a := by
-        intro a h; rcases h with h | h
+      have hKeep : ∀ a, KeepP O1 P1 o1 oo a → KeepP O P o oo a := by
+        intro a h; rcases h with (h | h) | h
         · rcases hO a h with h | h
-          · exact Or.inl h
+          · exact Or.inl (Or.inl h)
+          · exact Or.inr ⟨h.1, Nat.lt_of_lt_of_le h.2 ho1⟩
+        · rcases hP a h with h | h | h
+          · exact Or.inl (Or.inl h)
+          · exact Or.inl (Or.inr h)
           · exact Or.inr ⟨h.1, Nat.lt_of_lt_of_le h.2 ho1⟩
         · exact Or.inr ⟨Nat.le_trans ho h.1, h.2⟩
-      have hKK : ∀ a, K a → Keep O o oo a := by
-        intro a h; rcases hk a h with h | h
-        · exact Or.inl h
+      have hKK : ∀ a, K a → KeepP O P o oo a := by
+        intro a h; rcases hk a h with h | h | h
+        · exact Or.inl (Or.inl h)
+        · exact Or.inl (Or.inr h)
         · exact Or.inr ⟨h.1, Nat.lt_of_lt_of_le h.2 ho1⟩
       have hK2 : EqOn K Rref R2 := (hK.trans (hf.toOn hd)).trans (h2.mono hKK)
-      have := ih R2 (h2.mono hKeep) rfl hF' hO ho hk hd hnil (by simpa using hK2) y2
+      have := ih R2 (h2.mono hKeep) rfl hF' hO hP ho hk hd hnil (by simpa using hK2) y2
       simpa [List.append_assoc] using this
 
-theorem Yields.rebase {code} {O1 O K : Nat → Prop} {o1 o fr F F' p' S c out1 e1 out2 e}
-    (y1 : Yields code O1 o1 fr (F' ++ F) p' S c out1 e1) (hF' : ForksOK code F')
-    (hO : ∀ a, O1 a → O a ∨ (o ≤ a ∧ a < o1)) (ho : o ≤ o1)
-    (hk : ∀ a, K a → O a ∨ (o ≤ a ∧ a < o1)) (hd : ∀ a, K a → ¬ Wr O1 o1 a)
+theorem Yields.rebase {code} {O1 P1 O P K : Nat → Prop} {o1 o fr F F' p' S c out1 e1 out2 e}
+    (y1 : Yields code O1 P1 o1 fr (F' ++ F) p' S c out1 e1) (hF' : ForksOK code F')
+    (hO : ∀ a, O1 a → O a ∨ (o ≤ a ∧ a < o1)) (hP : ∀ a, P1 a → O a ∨ P a ∨ (o ≤ a ∧ a < o1)) (ho : o ≤ o1)
+    (hk : ∀ a, K a → O a ∨ P a ∨ (o ≤ a ∧ a < o1)) (hd : ∀ a, K a → ¬ Wr O1 o1 a)
     (hnil : F' = [] → e1 = none → out2 = [] ∧ e = none)
-    (y2 : ∀ R', EqOn K c.regs R' → Yields code O o fr F p' S (.fail (F' ++ F) e1 R') out2 e) :
-    Yields code O o fr F p' S c (out1 ++ out2) e :=
-  Yields.rebase_aux y1 rfl hF' hO ho hk hd hnil EqOn.refl y2
+    (y2 : ∀ R', EqOn K c.regs R' → Yields code O P o fr F p' S (.fail (F' ++ F) e1 R') out2 e) :
+    Yields code O P o fr F p' S c (out1 ++ out2) e :=
+  Yields.rebase_aux y1 rfl hF' hO hP ho hk hd hnil EqOn.refl y2
 
-theorem Yields.rebase_err {code} {O1 O : Nat → Prop} {o1 o fr F F' p' S c out1 e}
-    (y1 : Yields code O1 o1 fr (F' ++ F) p' S c out1 (some e)) (hF' : ForksOK code F')
-    (hO : ∀ a, O1 a → O a ∨ (o ≤ a ∧ a < o1)) (ho : o ≤ o1) :
-    Yields code O o fr F p' S c out1 (some e) := by
-  have := Yields.rebase (K := fun _ => False) (O := O) y1 hF' hO ho (fun _ h => h.elim) (fun _ h => h.elim)
+theorem Yields.rebase_err {code} {O1 P1 O P : Nat → Prop} {o1 o fr F F' p' S c out1 e}
+    (y1 : Yields code O1 P1 o1 fr (F' ++ F) p' S c out1 (some e)) (hF' : ForksOK code F')
+    (hO : ∀ a, O1 a → O a ∨ (o ≤ a ∧ a < o1)) (hP : ∀ a, P1 a → O a ∨ P a ∨ (o ≤ a ∧ a < o1)) (ho : o ≤ o1) :
+    Yields code O P o fr F p' S c out1 (some e) := by
+  have := Yields.rebase (K := fun _ => False) (O := O) (P := P) y1 hF' hO hP ho (fun _ h => h.elim) (fun _ h => h.elim)
     (fun _ h => by cases h)
     (fun R' _ => .done (err_through hF' F e R') EqOff.refl)
   simpa using this
 
-theorem Yields.exit_steps {code O o fr F p1 p2 S c outs e}
+theorem Yields.exit_steps {code O P o fr F p1 p2 S c outs e}
     (h : ∀ w G R o1 cp, ∃ cp', Steps code (.run p1 (.v w :: S) G false none R fr o1 cp)
       (.run p2 (.v w :: S) G false none R fr o1 cp'))
-    (y : Yields code O o fr F p1 S c outs e) : Yields code O o fr F p2 S c outs e := by
+    (y : Yields code O P o fr F p1 S c outs e) : Yields code O P o fr F p2 S c outs e := by
   induction y with
   | done hs hf => exact .done hs hf
   | @out c w ws e F' R1 o1 cp hF hs ho hf hn _ ih =>
     obtain ⟨cp', hst⟩ := h w (F' ++ F) R1 o1 cp
     exact .out hF (hs.trans hst) ho hf hn ih
 
-theorem bindL_nd_head {f : V → Res} {x xs s} (h : match (Res.bindL f (x :: xs) s).stop with | .diverge => False | _ => True) :
-    match (f x).stop with | .diverge => False | _ => True := by
-  unfold Res.bindL at h
-  rcases hfx : f x with ⟨o, st⟩
-  rw [hfx] at h
-  cases st <;> simp_all
-
 def ND (s : Stop) : Prop := match s with | .diverge => False | _ => True
 
-/-- sequential composition (pipe) -/
-theorem Yields.bind {code} {Oa Ob O : Nat → Prop} {o fr F pm p' S c xs ea} {f : V → Res}
+/-- sequential composition (pipe).  `R0`: the registers the read-only set `P` is read from. -/
+theorem Yields.bind {code} {Oa Ob O P : Nat → Prop} {o fr F pm p' S c xs ea} {f : V → Res} {R0 : Regs}
     (ha : ∀ i, Oa i → O i) (hbO : ∀ i, Ob i → O i) (hdis : ∀ i, Oa i → ¬ Ob i) (hlt : ∀ i, O i → i < o)
-    (ya : Yields code Oa o fr F pm S c xs ea)
-    (hb : ∀ x G R o1 cp, o ≤ o1 → ND (f x).stop →
-      Yields code Ob o1 fr G p' S (.run pm (.v x :: S) G false none R fr o1 cp) (f x).outs (f x).stop.toErr) :
-    ∀ sa, ea = sa.toErr → ND (Res.bindL f xs sa).stop →
-    Yields code O o fr F p' S c (Res.bindL f xs sa).outs (Res.bindL f xs sa).stop.toErr := by
+    (hPlt : ∀ i, P i → i < o ∧ ¬ O i)
+    (ya : Yields code Oa P o fr F pm S c xs ea)
+    (hb : ∀ x G R o1 cp, o ≤ o1 → EqOn P R0 R → ND (f x).stop →
+      Yields code Ob P o1 fr G p' S (.run pm (.v x :: S) G false none R fr o1 cp) (f x).outs (f x).stop.toErr) :
+    ∀ sa, ea = sa.toErr → EqOn P R0 c.regs → ND (Res.bindL f xs sa).stop →
+    Yields code O P o fr F p' S c (Res.bindL f xs sa).outs (Res.bindL f xs sa).stop.toErr := by
   induction ya with
   | done hs hf =>
-    intro sa hsa _
+    intro sa hsa _ _
     subst hsa
     have hW : ∀ a, Wr Oa o a → Wr O o a := fun a h => h.elim (fun h => Or.inl (ha a h)) Or.inr
-    simpa [Res.bindL] using Yields.done (p' := p') (S := S) hs (hf.mono hW)
+    simpa [Res.bindL] using Yields.done (P := P) (p' := p') (S := S) hs (hf.mono hW)
   | @out c x ws e F' R1 o1 cp hF' hs ho1 hf hn _ ih =>
-    intro sa hsa hnd
+    intro sa hsa hR0 hnd
     have hW : ∀ a, Wr Oa o a → Wr O o a := fun a h => h.elim (fun h => Or.inl (ha a h)) Or.inr
+    have hPW : ∀ a, P a → ¬ Wr Oa o a := by
+      intro a hp hw; rcases hw with hw | hw
+      · exact (hPlt a hp).2 (ha a hw)
+      · have := (hPlt a hp).1; omega
+    have hR1 : EqOn P R0 R1 := hR0.trans (hf.toOn hPW)
     have hndx : ND (f x).stop := by
       unfold ND at *
       unfold Res.bindL at hnd
       rcases hfx : f x with ⟨ox, st⟩
       rw [hfx] at hnd
       cases st <;> simp_all
-    have yb := hb x (F' ++ F) R1 o1 cp ho1 hndx
+    have yb := hb x (F' ++ F) R1 o1 cp ho1 hR1 hndx
     unfold Res.bindL at hnd ⊢
     generalize f x = rx at hnd yb hndx ⊢
     rcases rx with ⟨ox, st⟩
@@ -249,17 +262,22 @@ theorem Yields.bind {code} {Oa Ob O : Nat → Prop} {o fr F pm p' S c xs ea} {f 
     | diverge => exact (by simpa [ND] using hndx : False).elim
     | err e' =>
       simp only [Stop.toErr] at yb ⊢
-      exact (Yields.rebase_err yb hF' (fun a h => Or.inl (hbO a h)) ho1).steps_left hs (hf.mono hW)
+      exact (Yields.rebase_err yb hF' (fun a h => Or.inl (hbO a h)) (fun a h => Or.inr (Or.inl h)) ho1).steps_left hs (hf.mono hW)
     | done =>
       simp only [Stop.toErr] at yb ⊢
-      refine (Yields.rebase (K := Keep Oa o o1) yb hF' (fun a h => Or.inl (hbO a h)) ho1 ?_ ?_ ?_ ?_).steps_left hs (hf.mono hW)
-      · intro a h; rcases h with h | h
+      refine (Yields.rebase (K := KeepP Oa P o o1) yb hF' (fun a h => Or.inl (hbO a h)) (fun a h => Or.inr (Or.inl h)) ho1
+        ?_ ?_ ?_ ?_).steps_left hs (hf.mono hW)
+      · intro a h; rcases h with (h | h) | h
         · exact Or.inl (ha a h)
-        · exact Or.inr h
-      · intro a h hw; rcases h with h | h
+        · exact Or.inr (Or.inl h)
+        · exact Or.inr (Or.inr h)
+      · intro a h hw; rcases h with (h | h) | h
         · rcases hw with hw | hw
           · exact hdis a h hw
           · have := hlt a (ha a h); omega
+        · rcases hw with hw | hw
+          · exact (hPlt a h).2 (hbO a hw)
+          · have := (hPlt a h).1; omega
         · rcases hw with hw | hw
           · have := hlt a (hbO a hw); omega
           · omega
@@ -269,7 +287,8 @@ theorem Yields.bind {code} {Oa Ob O : Nat → Prop} {o fr F pm p' S c xs ea} {f 
         simp only [Res.bindL]
         exact hsa.symm
       · intro R' hR'
-        exact ih R' (by simpa using hR') sa hsa (by simpa using hnd)
+        have hR'' : EqOn (KeepP Oa P o o1) R1 R' := by simpa using hR'
+        exact ih R' hR'' sa hsa (hR1.trans (hR''.mono (fun a h => Or.inl (Or.inr h)))) (by simpa using hnd)
 
 
 end Gojq.MiniVM
